@@ -135,36 +135,66 @@ UNREACHABLE = [
 ]
 
 
+MISSING = []       # names that could not be resolved (information only)
+
+
+def _get(obj, dotted):
+    '''obj.a.b resolved tolerantly: None (and the name recorded) when any part
+    is missing -- a harmless rewrite may rename or remove private helpers.'''
+    cur = obj
+    for part in dotted.split('.'):
+        cur = getattr(cur, part, None)
+        if cur is None:
+            MISSING.append(f'{getattr(obj, "__name__", obj)}.{dotted}')
+            return None
+    return cur
+
+
 def anchored_functions():
-    from MIP.geom import forcad, transforms
-    from t4_geom_convert.Kernel import VectUtils as VU
-    from t4_geom_convert.Kernel.FileHandlers.Parser import ParseMCNPSurface as PS
-    from t4_geom_convert.Kernel.Surface import ConversionSurfaceMCNPToT4 as conv
-    from t4_geom_convert.Kernel.Surface import MacroBodies as MB
-    from t4_geom_convert.Kernel.Surface.CollectionDict import CollectionDict
-    from t4_geom_convert.Kernel.Surface.SurfaceCollection import \
-        SurfaceCollection
-    from t4_geom_convert.Kernel.Transformation import Transformation as TR
-    from t4_geom_convert.Kernel.Transformation import TransformationQuad as TQ
-    from t4_geom_convert.Kernel.Volume.CellConversion import CellConversion
-    funcs = [MB.check_params_length, MB.box, MB.rpp, MB.sph, MB.rcc, MB.rhp,
-             MB.rec, MB.trc, MB.ell, MB.wed, MB.parse_facet, MB.arb,
-             MB.MacroBodyError.__init__]
-    funcs += [VU.scal, VU.vect, VU.rescale, VU.vsum, VU.vdiff,
-              VU.renorm, VU.mag2, VU.mag, VU.rotate, VU.planeParamsFromPoints,
-              VU.planeParamsFromNormalAndPoint]
-    funcs += [TQ.transformation_quad, TR.transformation]
-    funcs += [PS.to_surfaces_macro, PS.to_surface_mcnp, PS.normalize_surface]
-    funcs += [conv.conversion_surface_params, conv.convert_plane,
-              conv.convert_cylinder, conv.convert_sphere, conv.convert_quadric,
-              conv.convert_cone]
-    funcs += [forcad.p, forcad.s, forcad.cylinder, forcad.cone, forcad.gq,
-              forcad._plane, forcad._sphere, forcad._cylinder, forcad._cone,
-              forcad._shift, forcad._norm, forcad._norm2,
-              forcad.transform_frame, transforms.transform_point,
-              transforms.transform_vector]
-    funcs += [SurfaceCollection.join, SurfaceCollection.__init__,
-              CollectionDict.number_items, CollectionDict._get_item,
-              CollectionDict._normalize_key]
-    funcs += [CellConversion.pot_expand_surfs, CellConversion.pot_transform]
+    '''The functions whose lines are watched.  Nothing here may raise: what
+    cannot be imported or found is skipped and listed in MISSING.'''
+    import importlib
+    del MISSING[:]
+    spec = {
+        't4_geom_convert.Kernel.Surface.MacroBodies': [
+            'check_params_length', 'box', 'rpp', 'sph', 'rcc', 'rhp', 'rec',
+            'trc', 'ell', 'wed', 'parse_facet', 'arb',
+            'MacroBodyError.__init__'],
+        't4_geom_convert.Kernel.VectUtils': [
+            'scal', 'vect', 'rescale', 'vsum', 'vdiff', 'renorm', 'mag2', 'mag',
+            'rotate', 'planeParamsFromPoints', 'planeParamsFromNormalAndPoint'],
+        't4_geom_convert.Kernel.Transformation.TransformationQuad': [
+            'transformation_quad'],
+        't4_geom_convert.Kernel.Transformation.Transformation': [
+            'transformation'],
+        't4_geom_convert.Kernel.FileHandlers.Parser.ParseMCNPSurface': [
+            'to_surfaces_macro', 'to_surface_mcnp', 'normalize_surface'],
+        't4_geom_convert.Kernel.Surface.ConversionSurfaceMCNPToT4': [
+            'conversion_surface_params', 'convert_plane', 'convert_cylinder',
+            'convert_sphere', 'convert_quadric', 'convert_cone'],
+        'MIP.geom.forcad': [
+            'p', 's', 'cylinder', 'cone', 'gq', '_plane', '_sphere',
+            '_cylinder', '_cone', '_shift', '_norm', '_norm2',
+            'transform_frame'],
+        'MIP.geom.transforms': ['transform_point', 'transform_vector'],
+        't4_geom_convert.Kernel.Surface.SurfaceCollection': [
+            'SurfaceCollection.join', 'SurfaceCollection.__init__'],
+        't4_geom_convert.Kernel.Surface.CollectionDict': [
+            'CollectionDict.number_items', 'CollectionDict._get_item',
+            'CollectionDict._normalize_key'],
+        't4_geom_convert.Kernel.Volume.CellConversion': [
+            'CellConversion.pot_expand_surfs', 'CellConversion.pot_transform'],
+    }
+    funcs = []
+    for modname, names in spec.items():
+        try:
+            mod = importlib.import_module(modname)
+        except Exception:      # pylint: disable=broad-except
+            MISSING.append(modname)
+            continue
+        for name in names:
+            func = _get(mod, name)
+            func = getattr(func, '__func__', func)
+            if func is not None and hasattr(func, '__code__'):
+                funcs.append(func)
     return funcs
